@@ -78,10 +78,32 @@ SHAPES = ["hexagon", "rect-square", "rect-nonsquare", "circle", "cell", "cell3se
           "cellsquare", "cellwrap"]
 
 
+SETTER_KINDS = ("hexagon", "circle", "cell", "cell3sec")
+
+
 def make_shape(rng, kind):
     pos = rand_pos(rng)
     R = 10.0 ** rng.uniform(-2, 2)
     rot, rc = rot_class(rng)
+    if kind in SETTER_KINDS and rng.random() < 0.35:
+        # the same shape reached through its setters: built elsewhere with
+        # another size/rotation, then moved, resized and rotated in a random order
+        pos0, R0 = rand_pos(rng), R * 10.0 ** rng.uniform(-1, 1)
+        rot0 = float(rng.uniform(-180, 180))
+        if kind == "hexagon":
+            s = SH.Hexagon(pos0, R0, rot0)
+        elif kind == "circle":
+            s = SH.Circle(pos0, R0)
+        elif kind == "cell":
+            s = CL.Cell(pos0, R0, cell_id=1, rotation=rot0)
+        else:
+            s = CL.Cell3Sec(pos0, R0, cell_id=1, rotation=rot0)
+        steps = [("pos", pos), ("radius", R)] + ([("rotation", rot)] if kind != "circle" else [])
+        for i in rng.permutation(len(steps)):
+            setattr(s, steps[i][0], steps[i][1])
+        if kind == "circle":
+            rot, rc = 0.0, "zero"
+        return s, rc + "/setters"
     if kind == "hexagon":
         s = SH.Hexagon(pos, R, rot)
     elif kind == "rect-square":
@@ -161,14 +183,61 @@ def case_containment(ctx, rng, idx):
         if not okc:
             continue
         ctx.ev("containment", bool(got) == bool(want),
-               cls="%s:%s" % (kind, "rotated" if rc != "zero" else "unrotated"),
+               cls="%s:%s" % (kind, "rotated" if not rc.startswith("zero") else "unrotated"),
                detail={**tag, "point": p, "library": bool(got), "kernel": bool(want),
                        "dist_to_boundary_over_R": db / R, "query": qclass, "vertices": V})
         ctx.sig("containment", kind, rc, qclass)
     ctx.sample("containment:" + kind, {**tag, "vertices_head": V[:3]})
 
 
+def case_wrap_users(ctx, rng, idx):
+    """Users seen through a wrapped copy of a cell: the originals translated to
+    the copy, whatever happened to either cell after the copy was made."""
+    ikind = ["cell", "cell3sec", "cellsquare"][(idx // 5) % 3]
+    (inner, rc) = make_shape(rng, ikind)
+    nusers = int(rng.integers(1, 6))
+    inner.add_random_users(nusers)
+    wrap = CL.CellWrap(rand_pos(rng), inner, include_users_bool=True)
+    hist = []
+    for _ in range(int(rng.integers(0, 3))):
+        op = int(rng.integers(0, 3))
+        if op == 0:
+            wrap.pos = rand_pos(rng)
+            hist.append("move-wrap")
+        elif op == 1 and ikind != "cellsquare":       # (rectangles ignore their pos setter)
+            inner.pos = rand_pos(rng)       # (its users move with it)
+            hist.append("move-inner")
+        else:
+            inner.add_random_users(1)
+            hist.append("add-user")
+    tag = {"shape": "cellwrap-users", "inner": ikind, "inner_pos": complex(inner.pos),
+           "wrap_pos": complex(wrap.pos), "radius": float(inner.radius),
+           "rotation": float(inner.rotation), "history": hist}
+    okc, users = ctx.call("users-inside", lambda: wrap.users, detail=tag)
+    if not okc:
+        return
+    orig = [complex(u.pos) for u in inner.users]
+    V = np.asarray(wrap.vertices)
+    R = float(inner.radius)
+    scale = abs(wrap.pos) + abs(inner.pos) + R
+    ctx.ev("users-inside", len(users) == len(orig) == wrap.num_users, cls="cellwrap:count",
+           detail={**tag, "got": len(users), "want": len(orig)})
+    for u, o in zip(users, orig):
+        p = complex(u.pos)
+        ctx.within("users-inside", abs(p - (o - inner.pos + wrap.pos)), 16 * EPS * scale,
+                   "cellwrap:translated-original", {**tag, "user": p, "original": o})
+        if dist_to_boundary(p, V) < 1e-9 * R + 16 * EPS * scale:
+            ctx.tally("tie-zone-points")
+            continue
+        ctx.ev("users-inside", point_in_polygon(p, V), cls="cellwrap:inside-copy",
+               detail={**tag, "user": p, "vertices": V})
+    ctx.sig("wrap-users", ikind, rc, tuple(hist))
+
+
 def case_users(ctx, rng, idx):
+    if idx % 5 == 4:
+        np.random.seed(int(rng.integers(0, 2 ** 31)))
+        return case_wrap_users(ctx, rng, idx)
     kind = ["cell", "cell3sec", "cellsquare", "cell3sec-sector"][idx % 4]
     np.random.seed(int(rng.integers(0, 2 ** 31)))
     okc, res = ctx.call("users-inside", make_shape, rng, kind.split("-")[0],
@@ -195,6 +264,23 @@ def case_users(ctx, rng, idx):
     if not okc:
         return
     users = s.users
+    if kind == "cell3sec-sector":
+        # independent sector hexagon: radius sqrt(3) R / 3, the cell centre is one
+        # of its vertices, centres at 210, 330 and 90 degrees (+ the cell rotation)
+        rs = math.sqrt(3) * R / 3.0
+        ck = s.pos + rs * np.exp(1j * (math.radians([210.0, 330.0, 90.0][sector - 1]) +
+                                       math.radians(s.rotation)))
+        phi = np.angle(s.pos - ck)
+        Vk = ck + rs * np.exp(1j * (phi + np.pi / 3 * np.arange(6)))
+        for u in users:
+            p = complex(u.pos)
+            if dist_to_boundary(p, Vk) < 1e-9 * R:
+                ctx.tally("tie-zone-points")
+                continue
+            ctx.ev("users-inside", point_in_polygon(p, Vk), cls="cell3sec:requested-sector",
+                   detail={**tag, "user": p, "sector": sector, "sector_vertices": Vk})
+            ctx.ev("users-min-distance", abs(p - ck) >= ratio * 0.5 * rs * (1 - 1e-12),
+                   cls="cell3sec-sector", detail={**tag, "user": p, "ratio": ratio * 0.5})
     ctx.ev("users-inside", len(users) == nusers and s.num_users == nusers, cls="count",
            detail={**tag, "got": len(users), "want": nusers})
     for u in users:
@@ -204,7 +290,7 @@ def case_users(ctx, rng, idx):
             ctx.tally("tie-zone-points")
             continue
         ctx.ev("users-inside", inside, cls="%s:%s" % (kind.split("-")[0],
-                                                     "rotated" if rc != "zero" else "unrotated"),
+                                                     "rotated" if not rc.startswith("zero") else "unrotated"),
                detail={**tag, "user": p, "dist_to_boundary_over_R": db / R})
         if kind != "cell3sec-sector":
             ctx.ev("users-min-distance", abs(p - s.pos) >= ratio * R * (1 - 1e-12),
@@ -271,7 +357,8 @@ def case_border(ctx, rng, idx):
             dev = abs(dirn / abs(dirn) - want)
             ctx.within("border-point", dev, 1e-9 + 64 * EPS * scale / abs(dirn),
                        "%s:direction" % kind, {**tag, "angle": ang, "point": bp})
-        r = float(rng.uniform(0.05, 0.95))
+        r = [float(rng.uniform(0.05, 0.95)), 0, 0.0, 1, 1.0,
+             float(10.0 ** rng.uniform(-12, -2))][int(rng.integers(0, 6))]
         okc, bpr = ctx.call("border-point", s.get_border_point, ang, r,
                             detail={**tag, "angle": ang, "ratio": r})
         if okc:
@@ -352,7 +439,7 @@ def case_cluster(ctx, rng, idx):
                                     detail=tag)
                 if okc:
                     ctx.ev("cluster-no-overlap", not ins,
-                           cls="library-test:%s" % ("rotated" if rc != "zero" else "unrotated"),
+                           cls="library-test:%s" % ("rotated" if not rc.startswith("zero") else "unrotated"),
                            detail={**tag, "point": p, "cells": [i + 1, j + 1]})
     # users and distance matrices
     nu = int(rng.integers(1, 4))
@@ -435,7 +522,7 @@ def classify(w):
 
 GENS = {
     "containment": Gen(case_containment, 1600, 160000),
-    "users": Gen(case_users, 600, 60000),
+    "users": Gen(case_users, 750, 75000),
     "border": Gen(case_border, 1050, 105000),
     "cluster": Gen(case_cluster, 360, 36000),
     "pointprocess": Gen(case_pointprocess, 200, 20000),
